@@ -354,7 +354,9 @@ ADDENDA = {
             "every position of five base documents and every ordered pair of faults on "
             "three small ones."),
     "C06": ("; thorough tier adds coverage-guided fuzzing (atheris/libFuzzer) with the "
-            "oracle inside the target",
+            "oracle inside the target; every load of a text of <= 2000 characters runs "
+            "under a CPU-time limit (ITIMER_VIRTUAL) so that a computation that never "
+            "touches the token stream is seen as well",
             " Also enumerated: every curated borderline lexeme in 12 statement contexts, "
             "and every sequence of <= 4 / 5 items over a vocabulary of '#' comments, dash "
             "continuations and '#' characters that start no comment."),
